@@ -38,6 +38,14 @@ CHECKS = {
         "level_note": "Names with dots inside labels, trailing dots and non-canonical IP lengths are not generated (outside the package's documented name/IP conventions).",
         "assumptions": ["x/net dnsmessage v0.59.0 is correct for the generated packets"],
     },
+    "C15": {
+        "stages": [rapid_stage("C15", 10000, 200000)],
+        "design_ref": "DESIGN.md 5 C15",
+        "technique": "property-based testing (rapid): reference model of Targets, purity by deep snapshot including sentinel-filled spare capacity",
+        "level_text": "Randomised exploration of ResolveResults x networks x stop points against a 40-line reference function; purity is checked on a snapshot that includes the memory beyond len of every slice and shared backing arrays.",
+        "level_note": "IPv4-mapped 16-byte addresses and Port 0 are not generated (the resolver never produces them).",
+        "assumptions": ["ALPN of a target is compared as a set"],
+    },
     "C02": {
         "stages": [rapid_stage("C02", 40, 60, tto=3400)],
         "design_ref": "DESIGN.md 4 C02",
